@@ -172,6 +172,8 @@ func Tokenize(usage string) ([]*Token, error) {
 					return nil, err("Was expecting a long option name")
 				}
 				tkp(TTLongOpt, opt, start)
+			default:
+				return nil, err("Was expecting an option name")
 			}
 
 		case '=':
